@@ -11,7 +11,7 @@ NOTES = ("All checks are generated-input search against an explicit oracle (rapi
 ENGINES = [
     {"name": "rapidcheck", "path": "/verif/harness/rcx.hpp", "serves_properties": ["C02", "C03", "C04", "C05", "C06", "C07", "C10", "C11", "C12", "C13", "C14", "C15", "C16", "C17"], "kind_free_text": "property-based testing with integrated shrinking"},
     {"name": "libFuzzer", "path": "/verif/fuzz/fuzz_stream.cpp", "serves_properties": ["C01", "C05", "C06", "C09", "C10"], "kind_free_text": "coverage-guided fuzzing, structure-aware decode, in-target oracles"},
-    {"name": "enumerators", "path": "/verif/checks", "serves_properties": ["C12", "C13", "C15", "C17"], "kind_free_text": "exhaustive bounded enumeration, shortest first, sharded over 16 processes"},
+    {"name": "enumerators", "path": "/verif/checks", "serves_properties": ["C12", "C13", "C15", "C17", "C18"], "kind_free_text": "exhaustive bounded enumeration, shortest first, sharded over 16 processes"},
 ]
 NOT_APPLICABLE = {}
 _FZ_NOTE = ("Trusted: the vdrv driver and its monitors (harness/vdrv.cpp), ASan/UBSan/LSan, libFuzzer. Coverage-guided search is not exhaustive and only "
@@ -102,6 +102,12 @@ META = {
         technique="exhaustive enumeration over a 7-symbol alphabet x every single cut x 48 decoder configurations against the reference split rule and reference decoder; rapidcheck multi-cuts; end-to-end POSTs",
         level_text=("Every string up to length 6/7 under every single cut and all 48 configurations yields exactly the reference pairs and anomaly flags. Exhaustive within bounds."),
         design_ref="DESIGN.md section 3, C15", level_note="Trusted: reference split rule in checks/c15.cpp and the reference decoder harness/refdec.hpp."),
+    "C18": dict(
+        engine="allocation-fault enumeration (link-time wrapped allocator) over captured and rapidcheck-generated inputs, ASan+UBSan",
+        technique="fault injection by exhaustive enumeration: for every input (captures + rapidcheck-generated scenarios) every single allocation index k of the fault-free run is failed once; oracle = sanitizer verdict, no hang, driver's API-contract monitor after the fault, clean teardown",
+        level_text=("For every generated and captured input, failing each of its allocations in turn (about 1 million single-fault runs per thorough run) never produces a sanitizer report, "
+                    "crash or hang, and later calls keep returning documented statuses. Exhaustive over k for each input; inputs are sampled."),
+        design_ref="DESIGN.md section 3, C18", level_note="Trusted: ASan/UBSan, the --wrap allocator shim in checks/c18.cpp. Seven defects found this way were repaired (D17a-d, D41-D43)."),
     "C17": dict(
         engine="rapidcheck + exhaustive enumeration",
         technique="model-based property testing (rapidcheck op sequences vs std::deque / ordered multimap models) + exhaustive small-alphabet argument enumeration vs naive references + boundary-value digit strings vs __int128",
